@@ -184,7 +184,9 @@ struct Scenario {
     proto: u8, // 9, 10, 0 = none
     done: bool,
     /// `rt=custom` on the case line: `System::with_tokio_rt` / `Arbiter::with_tokio_rt`
-    custom_rt: bool,
+    /// 0 = default runtimes, 1 = `rt=custom` (caller-built current-thread runtime), 2 = `rt=multi` (caller-built
+    /// MULTI-THREAD runtime: the arbiter's loop and the commands still run on the arbiter's own thread)
+    custom_rt: u8,
     /// `rt=slow`: `rt=custom`, and the runtime factory of the last arbiter created in front of the stops
     /// (and of the first one a batch creates) takes its time
     slow_rt: bool,
@@ -399,21 +401,30 @@ const OTHER_CODE: i32 = 77;
 /// commands queued behind the held task of a `backlog` arbiter when no number is given (`backlog:N`)
 const BACKLOG: usize = 1100;
 
-fn new_arbiter(custom: bool, slow: bool) -> Arbiter {
+/// the multi-thread runtime a caller of `with_tokio_rt` may just as well hand over
+fn multi_tokio_rt() -> tokio::runtime::Runtime {
+    tokio::runtime::Builder::new_multi_thread().worker_threads(2).enable_all().build().unwrap()
+}
+
+fn new_arbiter(custom: u8, slow: bool) -> Arbiter {
     if slow {
         Arbiter::with_tokio_rt(|| {
             thread::sleep(SLOW_FACTORY);
             custom_tokio_rt()
         })
-    } else if custom {
+    } else if custom == 2 {
+        Arbiter::with_tokio_rt(multi_tokio_rt)
+    } else if custom == 1 {
         Arbiter::with_tokio_rt(custom_tokio_rt)
     } else {
         Arbiter::new()
     }
 }
 
-fn new_system_runner(custom: bool) -> actix_rt::SystemRunner {
-    if custom {
+fn new_system_runner(custom: u8) -> actix_rt::SystemRunner {
+    if custom == 2 {
+        System::with_tokio_rt(multi_tokio_rt)
+    } else if custom == 1 {
         System::with_tokio_rt(custom_tokio_rt)
     } else {
         System::new()
@@ -448,7 +459,7 @@ fn feeding_future(helper_started: Arc<AtomicBool>, on_start: impl FnOnce() + Sen
 /// `Arbiter::new()` (on the calling thread, which must belong to a System) plus the per-kind set-up;
 /// `after_new` runs in the very next statement after `Arbiter::new()` returned.
 /// Returns the slot and, for `early` / `done`, what `stop()` returned.
-fn make_slot(k: Kind, rng: &mut Rng, custom: bool, slow: bool, after_new: &mut dyn FnMut()) -> (ArbSlot, Option<bool>) {
+fn make_slot(k: Kind, rng: &mut Rng, custom: u8, slow: bool, after_new: &mut dyn FnMut()) -> (ArbSlot, Option<bool>) {
     let arb = new_arbiter(custom, slow);
     after_new();
     let handle = arb.handle();
@@ -539,7 +550,7 @@ fn issue_stop(sys: &System, code: i32, plain: bool) {
 type Late = Arc<Mutex<Vec<(ArbSlot, Option<bool>)>>>;
 
 /// the actions of one entry, back to back, on the calling thread (`sys`: None = `System::current()`)
-fn perform(actions: &[Action], sys: Option<&System>, rng: &mut Rng, custom: (bool, bool), plain: bool, late: &Late, on_sys_thread: bool) {
+fn perform(actions: &[Action], sys: Option<&System>, rng: &mut Rng, custom: (u8, bool), plain: bool, late: &Late, on_sys_thread: bool) {
     // `custom.1` (`rt=slow`): the first arbiter created here has a slow runtime factory
     let (custom, mut slow) = custom;
     for a in actions {
@@ -1171,6 +1182,9 @@ struct StartRec {
     name: String,
     sys_id: Option<usize>,
     has_arb: bool,
+    /// probing runs: did `Arbiter::current()` still accept a command when the task started?  (The loop of
+    /// the arbiter that runs it had not ended then.)
+    loop_alive: Option<bool>,
 }
 
 struct TaskLog {
@@ -1195,6 +1209,8 @@ struct TaskLog {
     helpers: Mutex<Vec<(usize, Arc<AtomicBool>)>>,
     /// `stopother`: the other System
     other_sys: Mutex<Option<System>>,
+    /// every task sends a no-op through `Arbiter::current()` when it starts (see `StartRec::loop_alive`)
+    probe: bool,
 }
 
 /// what the director tells a task that holds its arbiter's thread
@@ -1216,6 +1232,7 @@ impl TaskLog {
             name: cur.name().unwrap_or("").to_string(),
             sys_id: System::try_current().map(|s| s.id()),
             has_arb: Arbiter::try_current().is_some(),
+            loop_alive: if self.probe { Arbiter::try_current().map(|h| h.spawn_fn(|| {})) } else { None },
         };
         self.recs.lock().unwrap().push(rec);
         *self.counts.lock().unwrap().entry(task).or_insert(0) += 1;
@@ -1400,7 +1417,7 @@ struct Sys10 {
 /// thread hosts `n` other Systems one after the other, each of which does a little work (a local task;
 /// every other one also an arbiter that comes and goes); their runners are kept alive until the
 /// thread ends, or dropped at once.
-fn start_system(narb: usize, host: Option<(usize, bool)>, custom: bool, slow: bool, runner_mode: Option<u8>) -> Result<Sys10, Out> {
+fn start_system(narb: usize, host: Option<(usize, bool)>, custom: u8, slow: bool, runner_mode: Option<u8>) -> Result<Sys10, Out> {
     let fail = |what: &str, t3: bool| Out {
         log: format!("setup={what}"),
         verdict: format!("setup={what}"),
@@ -1546,6 +1563,8 @@ fn exec_c10(sc: &Scenario, jseed: u64) -> Out {
         blockers: Mutex::new(vec![]),
         helpers: Mutex::new(vec![]),
         other_sys: Mutex::new(None),
+        // (in half of the runs: the extra commands change what is queued where)
+        probe: jseed % 2 == 0,
     });
     // per target: the owner object (None for the system arbiter) and a handle
     let mut real = arbs.into_iter();
@@ -1919,7 +1938,11 @@ fn exec_c10(sc: &Scenario, jseed: u64) -> Out {
             }
         }
     }
-    let cur_ok = recs.iter().all(|r| r.has_arb);
+    // a task of an `Arbiter::new` arbiter starts while that arbiter's loop is running — never once it has ended
+    // (what the loop's last poll spawned but did not start is dropped with the runtime).  The system arbiter's
+    // tasks live on the system thread's LocalSet, which goes on after its loop.
+    let dead_starts: Vec<usize> = recs.iter().filter(|r| !is_sys(sc.task_arb[r.task]) && r.loop_alive == Some(false)).map(|r| r.task).collect();
+    let cur_ok = recs.iter().all(|r| r.has_arb) && dead_starts.is_empty();
     let sys_ok = recs.iter().all(|r| r.sys_id == Some(sys_id));
     let once_ok = counts.values().all(|c| *c <= 1);
     let late = !undropped.is_empty() || by_arb.iter().enumerate().any(|(a, rs)| rs.iter().any(|r| r.seq >= seq_at_join[a]));
@@ -1961,7 +1984,9 @@ fn exec_c10(sc: &Scenario, jseed: u64) -> Out {
     if !thr_ok {
         t3.push(("C10".into(), format!("thread identity: {thr_why}")));
     }
-    if !cur_ok {
+    if !dead_starts.is_empty() {
+        t3.push(("C10".into(), format!("task(s) {} started on their arbiter's thread after its loop had ended: Arbiter::current() refused a command at that moment", short(&dead_starts))));
+    } else if !cur_ok {
         t3.push(("C10".into(), "Arbiter::try_current() was None inside a task".into()));
     }
     if !sys_ok {
@@ -2528,7 +2553,8 @@ fn feed(sc: &mut Scenario, ws: &[&str]) -> LineRes {
             _ => 0,
         };
         sc.slow_rt = ws[3.min(ws.len())..].contains(&"rt=slow");
-        sc.custom_rt = sc.slow_rt || ws[3.min(ws.len())..].contains(&"rt=custom");
+        let flags = &ws[3.min(ws.len())..];
+        sc.custom_rt = if flags.contains(&"rt=multi") { 2 } else if sc.slow_rt || flags.contains(&"rt=custom") { 1 } else { 0 };
         return LineRes::Plain("ok".into());
     }
     if sc.done {
@@ -3129,7 +3155,11 @@ fn run(a: &Args) {
 const KINDS9: [&str; 7] = ["early", "dropped", "running", "busy", "done", "feeding", "backlog"];
 
 fn write_c09(w: &mut dyn Write, name: &str, kinds: &[usize], align: Option<usize>, stops: &[(String, i32, &str)], mode: &str, j: u64) {
-    writeln!(w, "case {name} c09").unwrap();
+    // (`name@flags`: flags for the case line)
+    match name.split_once('@') {
+        Some((n, f)) => writeln!(w, "case {n} c09 {f}").unwrap(),
+        None => writeln!(w, "case {name} c09").unwrap(),
+    }
     for k in kinds {
         writeln!(w, "arb {}", KINDS9[*k]).unwrap();
     }
@@ -3674,8 +3704,40 @@ fn directed_other_c09(w: &mut dyn Write, rng: &mut Rng, thorough: bool) {
     }
 }
 
+/// Directed scenarios (both tiers, in front) with `rt=multi`: `System::with_tokio_rt` / `Arbiter::with_tokio_rt`
+/// are handed MULTI-THREAD Tokio runtimes; the system and its arbiters behave as ever.
+fn directed_multi_c09(w: &mut dyn Write, rng: &mut Rng, thorough: bool) {
+    let mut n = 0;
+    let mut case = |w: &mut dyn Write, rng: &mut Rng, lines: &[&str], mode: &str| {
+        writeln!(w, "case m{n} c09 rt=multi").unwrap();
+        n += 1;
+        for l in lines {
+            writeln!(w, "{l}").unwrap();
+        }
+        writeln!(w, "go {mode} j={}", rng.next() % 1_000_000).unwrap();
+    };
+    case(w, rng, &["arb running", "arb busy", "stop arb:1 7"], "code");
+    case(w, rng, &["arb feeding", "arb backlog:63", "batch sys-task s0 nr s4"], "run");
+    case(w, rng, &["arb running", "arb early", "sysfeed", "stop foreign 3"], "block");
+    if thorough {
+        for kinds in [&[][..], &["running"], &["busy", "done"], &["dropped", "feeding", "backlog:31"], &["running", "running", "running", "early"]] {
+            for o in ["sys-pre", "sys-task", "foreign", "arb:0", "osys"] {
+                if o == "arb:0" && kinds.is_empty() {
+                    continue;
+                }
+                let mut lines: Vec<String> = kinds.iter().map(|k| format!("arb {k}")).collect();
+                lines.push(format!("stop {o} {}", *rng.pick(&[0, 2, -8])));
+                let ls: Vec<&str> = lines.iter().map(|x| x.as_str()).collect();
+                let mode = *rng.pick(&["code", "run", "block"]);
+                case(w, rng, &ls, mode);
+            }
+        }
+    }
+}
+
 fn gen_c09(a: &Args, w: &mut dyn Write) {
     let mut rng = Rng::new(a.seed ^ 0xC09);
+    directed_multi_c09(w, &mut rng, a.tier == "thorough");
     directed_other_c09(w, &mut rng, a.tier == "thorough");
     directed_load_c09(w, &mut rng, a.tier == "thorough");
     directed_backlog_retire_c09(w, &mut rng, a.tier == "thorough");
@@ -3748,7 +3810,8 @@ fn gen_c09(a: &Args, w: &mut dyn Write) {
             }
             let mode = *rng.pick(&["code", "run", "code", "run", "block"]);
             let align = if na > 0 && rng.chance(1, 3) { Some(rng.below(na)) } else { None };
-            write_c09(w, &format!("q{n}"), &kinds, align, &stops, mode, rng.next() % 1_000_000);
+            let flags = ["", "", "", "", "", "@rt=custom", "@rt=multi", "@rt=multi"][rng.below(8)];
+            write_c09(w, &format!("q{n}{flags}"), &kinds, align, &stops, mode, rng.next() % 1_000_000);
         }
         // seeded batches
         for n in 0..24 {
@@ -3817,7 +3880,7 @@ fn directed_c10(w: &mut dyn Write, rng: &mut Rng, n: &mut usize, thorough: bool)
         for l in lines {
             writeln!(w, "{l}").unwrap();
         }
-        if !lines.last().map(|l| l == "ident" || l.starts_with("sysids") || l.starts_with("syslive") || l.starts_with("sysarbgone")).unwrap_or(false) {
+        if !lines.last().map(|l| l == "ident" || l.starts_with("sysids") || l.starts_with("syslive") || l.starts_with("sysarbgone") || l.starts_with("go ")).unwrap_or(false) {
             writeln!(w, "go j={}", rng.next() % 1_000_000).unwrap();
         }
     };
@@ -3836,6 +3899,20 @@ fn directed_c10(w: &mut dyn Write, rng: &mut Rng, n: &mut usize, thorough: bool)
                 case(w, &[s(tgt), s("spawn 0 own gate"), s("wait t0"), format!("spawnn 0 own fn {q}"), s("stop 0 h2"), s("spawnn 0 h1 fn 40"), s("open t0")], rng);
             }
         }
+    }
+    // (00000000000) `rt=multi`: arbiters (and the system) on MULTI-THREAD Tokio runtimes — commands still run in
+    // order on the arbiter's own thread, where `Arbiter::current()` is that arbiter; and what a loop's last poll
+    // spawned next to the `Stop` does not start once the loop has ended (probing runs: even `j`)
+    case(w, &[s("@rt=multi"), s("arb"), s("arb"), s("spawn 0 own fn"), s("spawn 1 h1 yield"), s("spawn 0 h2 sleep"), s("spawn 1 own fut"), s("spawnn 0 own fn 40"), s("wait t44"), s("wait t3"), s("stop 0 h1"), s("stop 1 own")], rng);
+    case(w, &[s("@rt=multi"), s("sysarb"), s("arb"), s("spawn 0 own gate"), s("wait t0"), s("spawnn 0 h1 fut 20"), s("spawn 1 c0 fn"), s("open t0"), s("wait t20"), s("wait t21"), s("stop 1 own"), s("stop 0 h2")], rng);
+    for (tag, j) in [("", 4u64), ("@rt=custom", 6), ("@rt=multi", 8)] {
+        let mut l = vec![s("arb"), s("spawn 0 own gate"), s("wait t0"), s("spawn 0 h1 fn"), s("spawn 0 own fut"), s("spawnn 0 h2 fn 5"), s("stop 0 own"), s("open t0")];
+        if !tag.is_empty() {
+            l.insert(0, s(tag));
+        }
+        // (an even `j`: every task that starts tells whether its arbiter's loop is still running)
+        l.push(format!("go j={j}"));
+        case(w, &l, rng);
     }
     // (0000000000) two Systems: a task on an arbiter of this one stops the OTHER System through a handle taken
     // there — that one's `run` returns the code and its arbiters stop; the calling arbiter, which nobody
@@ -4025,7 +4102,7 @@ fn gen_c10(a: &Args, w: &mut dyn Write) {
     // (1) seeded random sequences over the full alphabet: 1–2 arbiters and/or the system arbiter
     let count = if thorough { 800 } else { 90 };
     for _ in 0..count {
-        writeln!(w, "case r{n} c10").unwrap();
+        writeln!(w, "case r{n} c10{}", ["", "", "", "", "", " rt=custom", " rt=multi", " rt=multi"][rng.below(8)]).unwrap();
         n += 1;
         let hosted = rng.chance(1, 8);
         if hosted {
